@@ -9,6 +9,7 @@ package main
 //         back only after uniseg was consulted on it.
 
 import (
+	"fmt"
 	"go/ast"
 	"go/token"
 	"go/types"
@@ -86,7 +87,7 @@ func c02PrintConsultsUniseg(c *Ctx) {
 	ok := true
 	for _, r := range reads {
 		for _, u := range unreads {
-			if g.ReachesAvoiding(r.Loc, u.Loc, isUniseg) {
+			if g.ReachesAvoiding(r.Loc, u.Loc, isUniseg) && !c02InvalidByteKnown(g, info, u.Loc, r.Top) {
 				ok = false
 			}
 		}
@@ -153,4 +154,73 @@ func joinStrs(s []string) string {
 		out += x
 	}
 	return out
+}
+
+// c02InvalidByteKnown: at l the guards in force say that the rune read by the ReadRune assignment asg is the stand-in
+// of an invalid byte (first result == U+FFFD and second result == 1). Such a "rune" is no code point: uniseg has no
+// say about it, it is pushed back and delivered as a raw byte by readRune (see C02.p).
+func c02InvalidByteKnown(g *FG, info *types.Info, l Loc, asgNode ast.Node) bool {
+	asg, ok := asgNode.(*ast.AssignStmt)
+	if !ok || len(asg.Lhs) != 3 {
+		return false
+	}
+	obj := func(e ast.Expr) types.Object {
+		if id, ok := unparen(e).(*ast.Ident); ok && id.Name != "_" {
+			return info.ObjectOf(id)
+		}
+		return nil
+	}
+	r, sz := obj(asg.Lhs[0]), obj(asg.Lhs[1])
+	if r == nil || sz == nil {
+		return false
+	}
+	constIs := func(e ast.Expr, v int64) bool {
+		tv, ok := info.Types[e]
+		if !ok || tv.Value == nil {
+			return false
+		}
+		return tv.Value.String() == fmt.Sprint(v)
+	}
+	var isFFFD, isOne bool
+	// atoms that hold when e has truth value pol
+	var collect func(e ast.Expr, pol bool)
+	collect = func(e ast.Expr, pol bool) {
+		e = unparen(e)
+		switch t := e.(type) {
+		case *ast.UnaryExpr:
+			if t.Op == token.NOT {
+				collect(t.X, !pol)
+			}
+		case *ast.BinaryExpr:
+			switch {
+			case t.Op == token.LAND && pol, t.Op == token.LOR && !pol:
+				collect(t.X, pol)
+				collect(t.Y, pol)
+			case t.Op == token.EQL && pol, t.Op == token.NEQ && !pol:
+				for _, pr := range [][2]ast.Expr{{t.X, t.Y}, {t.Y, t.X}} {
+					if o := obj(pr[0]); o != nil {
+						if o == r && constIs(pr[1], 0xFFFD) {
+							isFFFD = true
+						}
+						if o == sz && constIs(pr[1], 1) {
+							isOne = true
+						}
+					}
+				}
+			}
+		}
+	}
+	// a guard counts only if neither variable is assigned between its edge and l
+	objs := map[types.Object]bool{r: true, sz: true}
+	for _, gd := range g.Guards(l) {
+		if gd.Cond.Alts != nil || g.AssignedBetween(gd, l, objs) {
+			continue
+		}
+		if gd.Cond.Tag != nil {
+			collect(&ast.BinaryExpr{X: gd.Cond.Tag, Op: token.EQL, Y: gd.Cond.Expr}, gd.Pol)
+			continue
+		}
+		collect(gd.Cond.Expr, gd.Pol)
+	}
+	return isFFFD && isOne
 }
